@@ -612,6 +612,24 @@ func (v *VC) evCall(x SCall, env *SpecEnv) TV {
 			specPanic("box needs a typed struct value")
 		}
 		return TV{T: v.makeIface(a.Typ, a.T), Sort: "Iface"}
+	case "visited":
+		// visited(k): key k has been produced by the map range loop of this function (the only one, or
+		// the one whose key sort matches)
+		a := v.ev(x.Args[0], env)
+		want := v.sortTV(a)
+		var found string
+		for hk, nm := range env.heap.m {
+			if strings.HasPrefix(hk, "ghost:vis_") && v.heapSortOf(hk) == fmt.Sprintf("(Array %s Bool)", want) {
+				if found != "" && found != nm {
+					specPanic("visited(): more than one map range loop with this key sort is in scope")
+				}
+				found = nm
+			}
+		}
+		if found == "" {
+			specPanic("visited(): no map range loop in scope")
+		}
+		return TV{T: fmt.Sprintf("(select %s %s)", found, a.T), Typ: tBool}
 	case "ifacestr":
 		// ifacestr(x): the string stored in interface value x (meaningful when x holds a string)
 		a := v.ev(x.Args[0], env)
